@@ -218,6 +218,14 @@ def run_given(stats, strategy, run_case, seed, max_examples, open_sigs, shrink=T
         test()
     except Disagreement:
         stats.failures.append(state["last"])
+    except hypothesis.errors.Flaky:
+        # the case failed once and passed when Hypothesis replayed it: the code under test behaved
+        # non-deterministically (e.g. set-iteration / address order).  Still a disagreement we saw.
+        if state["last"] is None:
+            raise
+        f = dict(state["last"])
+        f["message"] = "[not reproducible on immediate replay - order/address dependent] " + f["message"]
+        stats.failures.append(f)
     except hypothesis.errors.HypothesisException:
         raise
     except BaseException:
